@@ -29,6 +29,9 @@ TRUSTED = [
     "Spec/World.v specifies the epsilon-subgradient oracle (epssub_spec: the conjugate is attained at a point y, as in "
     "PEPit's encoding), the mirror map inverse (mirror_genuine) and the Bregman proximal operator (bprox_genuine); that "
     "the real steps meet them is C08's theorems (Proofs/C09Steps.v is_epssub_spec / is_mirror_spec / is_bprox_spec)",
+    "Spec/World.v specifies the approximate proximal operator of inexact_proximal_step (iprox_spec: genuine samples and the "
+    "criterion of the option with the accuracy returned; it is the primal-dual gap of C08, Proofs/C09Steps.v "
+    "iprox_spec_is_pd_gap); the model asks for a positive step size (Python divides by gamma only for 'PD_gapIII')",
     "the link between an example's Python code and the method named in its docstring is informal",
     "harness/concrete.py (numerical members and exact steps) is used only to search for counterexamples",
 ]
@@ -109,7 +112,31 @@ def gen_program(rng):
             ops.append(("bregprox", f, list(zip(keys, coefs)), f2, rng.choice([0.5, 1, 2.0, 0.25, 1.5, 4.0, 0, -1])))
             npnt += 2
             continue
-        r = (r - 0.22) / 0.78
+        if r < 0.31:
+            # x, gx, fx, w, v, fw, eps_var = inexact_proximal_step(p, f, gamma, opt): 'PD_gapI' four point leaves, samples
+            # (w, v, fw), (x, gx, fx); 'PD_gapII' two point leaves, the sample (p - gamma * gx + e, gx, fx); 'PD_gapIII'
+            # three point leaves, samples (x, gx, fx), (w, (p - x) / gamma, fw); three / two value leaves and one
+            # constraint on f.  Step sizes are powers of two (1 / gamma is computed in floating point), 0 and -1 only
+            # where Python does not divide by gamma
+            opt = rng.choice(["PD_gapI", "PD_gapII", "PD_gapIII"])
+            gamma = rng.choice([0.5, 1, 2.0, 0.25, 4.0, 0.125] + ([0, -1] if opt != "PD_gapIII" else [-2.0]))
+            comb = list(zip(keys, coefs))
+            seen[f].discard(key)
+            if opt == "PD_gapI":
+                seen[f].add(((npnt + 1, 1),))
+                seen[f].add(((npnt + 2, 1),))
+                npnt += 4
+            elif opt == "PD_gapII":
+                seen[f].add(tuple(sorted([(k, c) for k, c in comb] + ([(npnt + 1, -gamma)] if gamma != 0 else [])
+                                         + [(npnt, 1)])))
+                npnt += 2
+            else:
+                seen[f].add(((npnt, 1),))
+                seen[f].add(((npnt + 2, 1),))
+                npnt += 3
+            ops.append(("iprox", f, comb, gamma, opt))
+            continue
+        r = (r - 0.31) / 0.69
         if r < 0.15:
             # x, gx, fx = linear_optimization_step(dir, f): the recorded point is the fresh leaf x; one time in ten
             # the direction is 0 * leaf (the recorded gradient dictionary is then empty)
@@ -220,6 +247,9 @@ def impl_program(nf, ops, rng_classes):
             elif op[0] == "bregprox":
                 from PEPit.primitive_steps import bregman_proximal_step
                 bregman_proximal_step(p, funcs[f], funcs[op[3]], op[4])
+            elif op[0] == "iprox":
+                from PEPit.primitive_steps import inexact_proximal_step
+                inexact_proximal_step(p, funcs[f], op[3], opt=op[4])
             elif op[0] == "prox":
                 from PEPit.primitive_steps import proximal_step
                 proximal_step(p, funcs[f], op[3])
@@ -246,7 +276,8 @@ def impl_program(nf, ops, rng_classes):
                      T.dump_edict(fx.decomposition_dict, pid, xid)] for x, g, fx in f.list_of_points])
     # third entry: the model's well-formedness check of the program (evaluated points only mention existing leaves,
     # which holds by construction; proximal steps have a positive step size)
-    wf = 0 if any((op[0] == "prox" and not op[3] > 0) or (op[0] == "bregprox" and not op[4] > 0) for op in ops) else 1
+    wf = 0 if any((op[0] == "prox" and not op[3] > 0) or (op[0] == "bregprox" and not op[4] > 0)
+                    or (op[0] == "iprox" and not op[3] > 0) for op in ops) else 1
     cons = [[T.dump_constraint(c, pid, xid) for c in f.list_of_constraints] for f in funcs]
     return [Point.counter, Expression.counter, wf, out, cons]
 
@@ -273,6 +304,9 @@ def coq_program(nf, ops):
         elif op[0] == "inexact":
             items.append("MInexact %s %s %s %s" % (coq_nat(op[1]), model_point(op[2]),
                                                    "true" if op[3] == "relative" else "false", coq_q(op[4])))
+        elif op[0] == "iprox":
+            items.append("MInexactProx %s %s %s %s" % (coq_nat(op[1]), model_point(op[2]), coq_q(op[3]),
+                                                       {"PD_gapI": "PDgapI", "PD_gapII": "PDgapII", "PD_gapIII": "PDgapIII"}[op[4]]))
         elif op[0] == "epssub":
             items.append("MEpsSub %s %s" % (coq_nat(op[1]), model_point(op[2])))
         elif op[0] == "breggrad":
@@ -289,7 +323,7 @@ def stream_recording(tier, seed):
     n = 400 if tier == "quick" else 4000
     cases, progs = [], []
     hist = {"fresh": 0, "eval": 0, "stat": 0, "prox": 0, "linopt": 0, "inexact": 0, "linesearch": 0,
-            "epssub": 0, "breggrad": 0, "bregprox": 0}
+            "epssub": 0, "breggrad": 0, "bregprox": 0, "iprox": 0}
     n_interleaved = 0
     distinct = set()
     for i in range(n):
@@ -301,7 +335,7 @@ def stream_recording(tier, seed):
         for op in ops:
             hist[op[0]] += 1
         if sum(1 for op in ops if op[0] in ("eval", "prox", "linopt", "inexact", "linesearch",
-                                            "epssub", "breggrad", "bregprox")) >= 2:
+                                            "epssub", "breggrad", "bregprox", "iprox")) >= 2:
             distinct.add(repr((nf, ops)))
         if any(op[0] == "prox" for op in ops) and any(op[0] == "eval" for op in ops):
             n_interleaved += 1
@@ -317,7 +351,9 @@ def stream_recording(tier, seed):
                      "its orthogonality constraints compared too) and epsilon-subgradient steps (the real "
                      "epsilon_subgradient_step: three point leaves, three value leaves, two samples, its constraint compared "
                      "too) and Bregman gradient / proximal steps (the real bregman_gradient_step incl. a zero dual point, "
-                     "bregman_proximal_step on one or two functions, step sizes incl. 0 and a negative one) on 1-3 "
+                     "bregman_proximal_step on one or two functions, step sizes incl. 0 and a negative one) and inexact "
+                     "proximal steps (the real inexact_proximal_step, all three options, its accuracy constraint compared "
+                     "too) on 1-3 "
                      "leaf functions (6 classes) at dyadic combinations of earlier leaves; one program in five is a "
                      "proximal-gradient / prox-prox run on two functions with oracle calls and proximal steps "
                      "interleaved; non-trivial = at least 2 evaluations / proximal steps; distinct by syntax",
